@@ -287,3 +287,14 @@ also("C13", "Also (value maps): the offset writer and the two-digit writer as fo
 also("C14", "Also (value map): to_fixed_offset builds the offset that many seconds east, refuses +-24 h and an absent field.", VM)
 also("C16", "Also: in validate() the leap-second loop dominates every Ok return. (The E1 rule of this property was blind to sites first reached below a documented panicker until the context-bit repair; see DESIGN 11.2.)")
 also("C18", "Also: nothing in offset::local::inner reaches process-wide synchronised state (OnceLock, Mutex, atomics); find_tz_file decides by opening, not by metadata.")
+# ---- after the eighth round ------------------------------------------------------------------------------------------------------------
+_W = "Also: every panicking wrapper `name` of the type calls exactly its own fallible sibling `name_opt` / `try_name`, with its own parameters in order (a wrapper unwrapping the wrong sibling type-checks)."
+also("C01", _W)
+also("C02", _W)
+also("C04", "Also: FixedOffset::east / west call their own _opt sibling; checked_add/sub_days and checked_add/sub_months and map_local keep only a unique resolution (`single`, never `earliest` / `latest`).")
+also("C06", _W)
+also("C07", _W)
+also("C13", "Also: the item lists behind %r / %c / %x / %X (shared with C12): a Space item turned into a Literal formats the same but no longer parses wider white space.")
+_O = "Also: every Add/Sub/AddAssign/SubAssign impl delegates in its own direction to the method for its right-hand type (a `-` that calls checked_add_* type-checks), and std Durations are converted whole by TimeDelta::from_std."
+also("C03", _O)
+also("C08", _O)
